@@ -327,6 +327,13 @@ pub fn on_root_poll_end(w: &mut World, out: &Out) {
 
 /// Is a Pending concurrent-stream root legitimately blocked?
 pub fn blocked(w: &World) -> Result<(), (NodeId, String)> {
+    if matches!(w.model.co.terminal, Some(Terminal::TryForEach | Terminal::CollectResult)) {
+        if let (Some(at), Some(&e)) = (w.model.co.first_err_at, w.model.co.errs.first()) {
+            // after an error nothing is taken from the source any more and the in-flight futures are dropped:
+            // there is nothing left to wait for, the operation has to report the error
+            return Err((ROOT, format!("a work future returned Err(v{e}) (log position {at}) but the operation is still pending with no wake-up outstanding: the error is never reported")));
+        }
+    }
     let mut waiting_on = None;
     let live_kids: Vec<NodeId> = w.node(ROOT).children.iter().copied().filter(|&c| !w.node(c).done && w.node(c).dropped == 0).collect();
     for &c in &live_kids {
@@ -748,15 +755,25 @@ pub fn plan(w: &mut World, p: &Profile, prop: &str) -> Plan {
     // Work futures finish after at most one delayed wake and fail rarely, so that dozens of completions (beyond a
     // per-call budget of 32 or 64, beyond one 32-slot block of the buffered group) are pulled in one go.
     let mut bulk = 0;
-    if !vec_source && prop != "C02" && !crate::gen::small() && w.ch.draw("co.bulk", 25) == 24 {
+    let bulk_every = if prop == "C14" { 6 } else { 25 };
+    if !vec_source && prop != "C02" && !crate::gen::small() && w.ch.draw("co.bulk", bulk_every) == bulk_every - 1 {
         bulk = 65 + w.ch.draw("co.bulk.n", 70);
         let mut script = vec![Step::Item; bulk as usize];
-        script.push(Step::Pend(crate::world::Wake::Later(4)));
-        for _ in 0..w.ch.draw("co.bulk.tail", 3) {
-            script.push(Step::Item);
+        // after the burst the source pauses (and later ends), or stalls for good: then every completion is pulled by
+        // one and the same `progress` call
+        let stalls = w.ch.draw("co.bulk.stall", 2) == 1;
+        let mut term = Term::Finished;
+        if stalls {
+            script.push(Step::Pend(crate::world::Wake::NoWake));
+            term = Term::Never;
+        } else {
+            script.push(Step::Pend(crate::world::Wake::Later(4)));
+            for _ in 0..w.ch.draw("co.bulk.tail", 3) {
+                script.push(Step::Item);
+            }
+            script.push(Step::End);
         }
-        script.push(Step::End);
-        leaves[0] = crate::gen::LeafPlan { script, term: Term::Finished };
+        leaves[0] = crate::gen::LeafPlan { script, term };
         for (i, a) in STACKS[stack].1.iter().enumerate() {
             // limits below the bulk size would only serialise the run
             if *a == Ad::Limit && w.ch.draw("co.bulk.limit", 2) == 1 {
